@@ -515,7 +515,11 @@ func (c *CheckRun) nativeRaceSweep() {
 	for _, lp := range [][2]int64{{2, 2}, {5, 5}, {0, 1}, {3, 3}} {
 		for a := int64(0); a < nops; a++ {
 			for b := a; b < nops; b++ {
-				vec := &Vector{Harness: "H_C12_race", Args: []int64{a, lp[0], b, lp[1], 0}, Vals: map[string]interface{}{"goldenlang": int(lp[0])}, Property: "C12", Label: "data-race", Kind: "race"}
+				vals := map[string]interface{}{"goldenlang": int(lp[0])}
+				if lp[0] == lp[1] && a == b {
+					vals["extra"] = 1 // same call, same language: three cold-start callers
+				}
+				vec := &Vector{Harness: "H_C12_race", Args: []int64{a, lp[0], b, lp[1], 0}, Vals: vals, Property: "C12", Label: "data-race", Kind: "race"}
 				raced, failures, out, err := rp.RunRace(vec, 3)
 				runs++
 				if err != nil {
